@@ -626,8 +626,8 @@ class Messenger(Connection):
         self.__rx_buf += data
         self._logger.debug('RX buffer size %d octets', len(self.__rx_buf))
 
-        # Handle as many messages as are present
-        while self.__rx_buf:
+        # Handle as many messages as are present (until the connection closes)
+        while self.__rx_buf and self.get_app_socket() is not None:
             probe_data = self.__rx_buf
             if self._in_conn:
                 msgcls = messages.MessageHead
